@@ -458,6 +458,9 @@ def harnesses():
         'vhdx-flip': R.Harness('vhdx-flip', scen_vhdx, load_sym_flip,
                                load_real),
     }
+    H['safetycheck'] = R.Harness('safetycheck', scen_safetycheck, load_sym,
+                                 load_real)
+    H['safetycheck'].required_goals = ('ok', 'fail', 'refused')
     H['capture-step'].required_goals = ('captured', 'already-complete',
                                         'chunk-straddles-start')
     H['endcapture-step'].required_goals = ('giant-chunk',)
@@ -490,3 +493,77 @@ def simple_jobs(J, H, props, k, tier, gpt='few', iso_bs=(2048,)):
                                         gpt_fixed=pat),
                       split_depth=10 if len(sym) > 1 else None))
     return jobs
+
+
+# ---------------------------------------------------------------- SafetyCheck
+def scen_safetycheck(ctx, M):
+    """FileInspector.safety_check over a harness-defined inspector whose
+    checks pass, raise SafetyViolation, or raise an arbitrary exception
+    (symbolic choice per check); completeness and match symbolic too."""
+    fi = M.fi
+    n = ctx.p.get('checks', 2)
+    kinds = [ctx.choice('k%d' % i, ['pass', 'violation', 'error',
+                                     'keyerror']) for i in range(n)]
+    complete = ctx.truth(ctx.bool('complete'))
+    match = ctx.truth(ctx.bool('match'))
+
+    def mk(kind):
+        def target():
+            if kind == 'violation':
+                raise fi.SafetyViolation('no')
+            if kind == 'error':
+                raise RuntimeError('boom')
+            if kind == 'keyerror':
+                raise KeyError('x')
+            return None
+        return target
+
+    class T(fi.FileInspector):
+        NAME = 't'
+
+        def _initialize(self):
+            for i, k in enumerate(kinds):
+                self.add_safety_check(fi.SafetyCheck('c%d' % i, mk(k)))
+
+        @property
+        def format_match(self):
+            return match
+
+        @property
+        def complete(self):
+            return complete
+
+    class NoChecks(fi.FileInspector):
+        def _initialize(self):
+            pass
+
+        @property
+        def format_match(self):
+            return True
+
+    try:
+        NoChecks()
+        built = True
+    except RuntimeError:
+        built = False
+    ctx.check('C02-checks-required', not built)
+    insp = T()
+    try:
+        insp.safety_check()
+        out = 'ok'
+    except fi.SafetyCheckFailed as e:
+        out = 'fail:' + ','.join(sorted(e.failures))
+    except fi.ImageFormatError:
+        out = 'refused'
+    except Exception as e:
+        out = 'EXC:' + type(e).__name__
+    bad = sorted('c%d' % i for i, k in enumerate(kinds) if k != 'pass')
+    if not (complete and match):
+        want = 'refused'
+    elif bad:
+        want = 'fail:' + ','.join(bad)
+    else:
+        want = 'ok'
+    ctx.check('C02-safety-outcome', out == want)
+    ctx.goal(want.split(':')[0])
+    return (out,)
